@@ -319,17 +319,20 @@ def run_case(case: dict) -> dict:
     mod = None
     step = -1
     import signal
-    old = signal.signal(signal.SIGALRM, _on_alarm)
-    signal.setitimer(signal.ITIMER_REAL, CASE_TIMEOUT_S, 0.5)   # repeating: library code that swallows one raise cannot stop it
+    # the budget is CPU time of this process (ITIMER_PROF), not wall-clock time: on a loaded machine a trivial case can be
+    # descheduled for longer than any wall-clock budget (observed: a false CaseTimeout for `x: Optional[int] = None` at load 130),
+    # while the runs this alarm is for (unbounded / exponential recursion in the library) burn CPU
+    old = signal.signal(signal.SIGPROF, _on_alarm)
+    signal.setitimer(signal.ITIMER_PROF, CASE_TIMEOUT_S, 0.5)   # repeating: library code that swallows one raise cannot stop it
     try:
         return _run_case(case, params, stats)
     except CaseTimeout:
-        signal.setitimer(signal.ITIMER_REAL, 0)
-        return {"ok": False, "clause": "total", "what": f"schema generation did not finish within {CASE_TIMEOUT_S}s", "step": case.get("_step", 0),
+        signal.setitimer(signal.ITIMER_PROF, 0)
+        return {"ok": False, "clause": "total", "what": f"schema generation did not finish within {CASE_TIMEOUT_S}s of CPU time", "step": case.get("_step", 0),
                 "exc": "CaseTimeout", "msg": ""}
     finally:
-        signal.setitimer(signal.ITIMER_REAL, 0)
-        signal.signal(signal.SIGALRM, old)
+        signal.setitimer(signal.ITIMER_PROF, 0)
+        signal.signal(signal.SIGPROF, old)
 
 
 def _run_case(case: dict, params: dict, stats: dict) -> dict:
@@ -496,25 +499,21 @@ def classify(case: dict, res: dict) -> dict:
     if res.get("clause") == "total":
         if exc == "TypeError" and "issubclass() arg 1 must be a class" in msg and last.get("selftype"):
             kind = "self-type"
-        elif exc == "TypeError" and "doesn't apply to a 'CC' object" in msg and last.get("slots_hit"):
-            kind = "slots-descriptor-default"
         elif exc == "NameError" and last.get("nt_fwd_default"):
             kind = "default-over-string-annotated-namedtuple"
         elif exc == "ValueError" and msg.startswith("mutable default") and last.get("nt_mutable"):
             kind = "nt-mutable-default"
-        elif exc in ("RecursionError", "CaseTimeout") and last.get("cyclic") and not last.get("field_strategy_unannotated") and not last.get("field_override_container"):
+        elif exc in ("RecursionError", "CaseTimeout") and last.get("cyclic"):
             kind = "recursive-class"
-        elif exc in ("RecursionError", "CaseTimeout") and last.get("field_strategy_unannotated") and not last.get("cyclic"):
-            kind = "field-strategy-unannotated"
-        elif exc in ("RecursionError", "CaseTimeout") and last.get("field_override_container") and not last.get("cyclic"):
-            kind = "field-override-container"
+        elif exc in ("RecursionError", "CaseTimeout") and last.get("table_override_recursion"):
+            kind = "table-override-recursion"
     elif res.get("clause") == "metaschema" and "validator crashed" in res.get("what", "") and res.get("detail", {}).get("depth", 0) >= 150 \
-            and any(f.get("field_override_container") for f in upto):
+            and any(f.get("table_override_recursion") for f in upto):
         # the library swallowed its own RecursionError (except Exception -> Any) and returned a ~1000-deep document
-        kind = "field-override-container"
-    elif res.get("clause") == "accumulate" and any(f.get("field_override_container") for f in upto):
-        # the ~1000-deep document of that finding depends on the stack depth at which the library's own RecursionError hit
-        kind = "field-override-container"
+        kind = "table-override-recursion"
+    elif res.get("clause") == "accumulate" and any(f.get("table_override_recursion") for f in upto):
+        # where the library's own RecursionError is swallowed depends on the stack depth at that moment
+        kind = "table-override-recursion"
     elif res.get("clause") == "accumulate":
         if _clash_across(upto):
             kind = "defs-bare-name-clash"
